@@ -3,8 +3,10 @@ package main
 
 import (
 	"context"
+	"errors"
 	"fmt"
 	"github.com/theparanoids/ysshra/sshutils/key"
+	"os"
 	"strings"
 	"time"
 
@@ -118,11 +120,15 @@ type stubHandler struct {
 	nKeys int
 	nCSRs int
 	fail  bool
+	plain bool // the failure is not one of the RA's typed errors (a third-party handler)
 }
 
 func (s *stubHandler) Name() string                     { return "stub" }
 func (s *stubHandler) Authenticate(*csr.ReqParam) error { return nil }
 func (s *stubHandler) Generate(*csr.ReqParam) ([]csr.AgentKey, error) {
+	if s.fail && s.plain {
+		return nil, fmt.Errorf("scripted generation failure: %w", os.ErrDeadlineExceeded)
+	}
 	if s.fail {
 		return nil, gensign.NewErrorWithMsg(gensign.HandlerGenCSRErr, "stub", "scripted generation failure")
 	}
@@ -393,7 +399,7 @@ func main() {
 				name string
 				v    any
 			}{{"", nil}, {"-with-an-error-value", fmt.Errorf("an error value")}, {"-with-a-gensign-error", gensign.NewErrorWithMsg(gensign.HandlerAuthN, "x", "a typed error used as panic value")}, {"-with-a-nil-gensign-error", nilErr}}
-			for mi, m0 := range []string{"Name", "Authenticate", "Generate", "CSRs", "AddCertsToAgent", "Name", "Authenticate", "Generate", "CSRs", "AddCertsToAgent", "empty-generate", "empty-generate-non-nil", "failing-generate"} {
+			for mi, m0 := range []string{"Name", "Authenticate", "Generate", "CSRs", "AddCertsToAgent", "Name", "Authenticate", "Generate", "CSRs", "AddCertsToAgent", "empty-generate", "empty-generate-non-nil", "failing-generate", "failing-generate-plain"} {
 				m := m0
 				c := r.Case("fault", idx)
 				idx++
@@ -409,7 +415,7 @@ func main() {
 				switch m {
 				case "empty-generate", "empty-generate-non-nil":
 					rec.Fault, rec.Stage = m, "generation"
-				case "failing-generate":
+				case "failing-generate", "failing-generate-plain":
 					if sh.Real {
 						continue
 					}
@@ -428,6 +434,8 @@ func main() {
 						tr.emptyGenerate, tr.emptyNonNil = true, true
 					case "failing-generate":
 						tr.inner.(*stubHandler).fail = true
+					case "failing-generate-plain":
+						tr.inner.(*stubHandler).fail, tr.inner.(*stubHandler).plain = true, true
 					}
 				})
 			}
@@ -602,6 +610,10 @@ func judge(r *ev.Run, c *ev.Case, e *env, sh shape, rec faultRec, inject func(*w
 		ok = rec.Result == "csr-generation" || rec.Result == "configuration" || rec.Result == "invalid-params"
 		if rec.Fault == "failing-generate" {
 			ok = runErr != nil
+		}
+		if rec.Fault == "failing-generate-plain" {
+			// the handler's own error, as it is or classified: an error either way
+			ok = runErr != nil && (rec.Result != "plain" || errors.Is(runErr, os.ErrDeadlineExceeded))
 		}
 	case "signer":
 		ok = rec.Result == "signer"
